@@ -68,6 +68,9 @@ def run(root, tag, seed, rounds=1):
                 J('the job makes its output a symlink to a host file (absolute)', args=['S', abs_canary, 'out.o'], inputs=[]),
                 J('the job makes its output a symlink to a host file (relative)', args=['S', '../../../canary-builds.txt', 'out.o'], inputs=[]),
                 J('the inputs archive makes the output a symlink to a host file', args=[], inputs=[{'kind': 'dir', 'name': 'w'}, {'kind': 'symlink', 'name': 'w/out.o', 'target': abs_canary}]),
+                J('the job swaps the output directory the server created for a symlink to a host directory (absolute)', outputs=['sub/canary-tc.txt'], args=['D', 'sub', 'S', os.path.join(C, 'tc'), 'sub'], inputs=[]),
+                J('the job swaps the output directory the server created for a symlink out of the root (relative)', outputs=['sub2/canary-builds.txt'], args=['D', 'sub2', 'S', '../../..', 'sub2'], inputs=[]),
+                J('the job swaps its working directory for a symlink to a host directory', cwd='/w/inner', outputs=['canary-tc.txt'], args=['D', '../inner', 'S', os.path.join(C, 'tc'), '../inner'], inputs=[]),
                 J('toolchain with a symlink to a host directory, cwd below it', toolchain={'marker': 'lnk', 'links': [['hostdir', os.path.join(C, 'tc')]]}, cwd='/hostdir/esc-via-toolchain-link', args=['W', 'out.o', 'x'], inputs=[]),
                 J('toolchain with a symlink to a host directory, output below it', toolchain={'marker': 'lnk', 'links': [['hostdir', os.path.join(C, 'tc')]]}, outputs=['/hostdir/canary-tc.txt'], args=['W', 'out.o', 'x'], inputs=[]),
                 J('benign again after all of that', expect={'out.o': 'INPUT-1'}, inputs=[{'kind': 'file', 'name': 'w/in.txt', 'data': 'INPUT-1'}]),
